@@ -353,8 +353,13 @@ pub fn c08(case: &Case, obs: &mut Obs, prec: Prec) -> Result<(), Failure> {
             5 | 6 => "quarter-turn",
             _ => "anti-transpose",
         });
-        let f = |p: P| sym_apply(sym, p);
+        // three times out of four by plain negation, which turns a zero coordinate into -0.0 (what a caller's `-x` does)
+        let raw = (case.bits >> 2) & 3 != 0;
+        let f = |p: P| if raw { crate::gen::sym_apply_raw(sym, p) } else { sym_apply(sym, p) };
         let (a2, b2) = (map_mp(a, &f), map_mp(b, &f));
+        if raw && rings_of(&a2).iter().chain(rings_of(&b2).iter()).flat_map(|r| r.0.iter()).any(|c| (c.x == 0.0 && c.x.is_sign_negative()) || (c.y == 0.0 && c.y.is_sign_negative())) {
+            obs.class("mirrored-zero-is-negative-zero");
+        }
         let ctx2 = PairCtx::new(&a2, &b2, tol);
         for (i, &op) in OPS.iter().enumerate() {
             let r2 = run(prec, &a2, &b2, op)?;
